@@ -156,7 +156,8 @@ _C05F = ["query::filter::Filter::filter_item", "query::filter::Filter::process_e
 PROPS["C05"] = [
     H("filter", "c05_bool_" + k, funcs=_C05F, symbolic="truth value of every atom (free Boolean)", shape=shape, est=40)
     for k, shape in (("and_or", "(a && b) || c"), ("or_and", "a || (b && c)"), ("and3", "a && b && c"), ("or3", "a || b || c"),
-                     ("not_paren", "!(a || b) && c"), ("paren_paren", "(a || b) && (c || d)"), ("double_not", "!(!(a)) || !(b && c)"))
+                     ("not_paren", "!(a || b) && c"), ("paren_paren", "(a || b) && (c || d)"), ("double_not", "!(!(a)) || !(b && c)"),
+                     ("not_not", "!a && !b"), ("and_paren_or", "a && (b || c)"))
 ] + [
     H("filter", "c05_ctor_paren", funcs=_C05F + ["parser::model::FilterAtom::filter"], symbolic="atom value, inner and outer negation flags",
       shape="FilterAtom::filter(<(possibly negated) group>, not)", est=10),
@@ -202,6 +203,8 @@ _C02 = [
     H("segment", "c02_selectors_idx_idx", funcs=["query::segment::process_selectors", "query::state::Data::reduce"], symbolic="i, j in -4..4", shape="[i, j] on one array of 3", est=40),
     H("segment", "c02_selectors_slice_idx", funcs=["query::segment::process_selectors"], symbolic="slice bounds 0..3, j in -4..4", shape="[s:e, j] on one array of 3", est=120),
     H("segment", "c02_selectors_idx_slice", funcs=["query::segment::process_selectors"], symbolic="slice bounds 0..3, j in -4..4", shape="[j, s:e] on one array of 3", est=120),
+    H("segment", "c02_selectors_wild_idx", funcs=["query::segment::process_selectors"], symbolic="j in -3..3", shape="[*, j] on one array of 2", est=60),
+    H("segment", "c02_selectors_three", funcs=["query::segment::process_selectors"], symbolic="i, j, k in -3..2", shape="[i, j, k] on one array of 2", est=90),
 ]
 _SLICES = [h for h in PROPS["C11"] if "slice" in h["name"]]
 PROPS["C01"] = _C01 + [h for h in _C02 if "roleb" not in h["name"]] + [h for h in PROPS["C11"] if h["name"].endswith(("index_len3", "slice_len2"))]
